@@ -189,13 +189,25 @@ def intfsOf (ifs : List Iface) : List Client.Intf :=
 def linksOf (intfs : List Client.Intf) : List (Nat × Bool) :=
   intfs.flatMap fun i => (if i.v4 then [(i.idx, true)] else []) ++ (if i.v6 then [(i.idx, false)] else [])
 
-/-- the datagrams of an iteration in the order the daemon reads them (IPv4 socket first),
-    decoded; undecodable datagrams are dropped by `handle_read` -/
-def packetsOf (it : Iter) : List Client.Packet :=
-  ((it.rx.filter (·.2.1)) ++ (it.rx.filter (!·.2.1))).filterMap fun (ifi, v4, _, b) =>
+def decodeRx (rx : List (Nat × Bool × String × BList)) : List Client.Packet :=
+  rx.filterMap fun (ifi, v4, _, b) =>
     match Wire.decode b.toArray with
     | .ok m => some { ifIdx := ifi, v4, msg := m }
     | _ => none
+
+/-- the datagrams of an iteration in the order the daemon reads them (IPv4 socket first),
+    decoded; undecodable datagrams are dropped by `handle_read` -/
+def packetsOf (it : Iter) : List Client.Packet :=
+  decodeRx (it.rx.filter (·.2.1)) ++ decodeRx (it.rx.filter (!·.2.1))
+
+/-- The two sockets are drained one after the other, each completely; which one comes first is
+    the poller's choice (under the simulation seam: IPv4 first, unless the real IPv6 socket
+    happened to be readable - stray traffic on the machine - then `handle_poller_events` drains
+    the injected IPv6 queue first).  Both orders are legitimate behaviours of the code. -/
+def packetOrders (it : Iter) : List (List Client.Packet) :=
+  let v4 := decodeRx (it.rx.filter (·.2.1))
+  let v6 := decodeRx (it.rx.filter (!·.2.1))
+  if v4.isEmpty || v6.isEmpty then [v4 ++ v6] else [v4 ++ v6, v6 ++ v4]
 
 /-- Runs the client model over the implementation's iteration times, datagrams and API
     calls.  Outer `none`: the script is outside the fragment; `some none`: every iteration
@@ -213,14 +225,22 @@ def clientCorrespondence (script : List Cmd) (iters : List Iter) : Option (Optio
       | it :: rest =>
         let cmds := it.calls.filterMap fun (i, r) =>
           if r == "ok" then (cmdArr[i]?).bind clientCommand else none
-        let (s', outs) := Client.iter s it.now (packetsOf it) cmds
-        let mp := modelProj links outs
         let ip := implProj it
-        if mp != ip then
-          some s!"MODEL-DIFF iteration {k} now={it.now} model=[{" | ".intercalate mp}] impl=[{" | ".intercalate ip}]"
-        else if Client.wake s' != it.wake && it.ended.isNone then
-          some s!"MODEL-DIFF iteration {k} now={it.now} wake model={Client.wake s'} impl={it.wake}"
-        else go s' rest (k + 1)
+        -- the first socket order under which the model agrees (projection and wake-up)
+        let tries := (packetOrders it).map fun pk =>
+          let (s', outs) := Client.iter s it.now pk cmds
+          (s', modelProj links outs)
+        let agrees := fun (t : Client.State × List String) =>
+          t.2 == ip && (Client.wake t.1 == it.wake || it.ended.isSome)
+        match tries.find? agrees with
+        | some (s', _) => go s' rest (k + 1)
+        | none =>
+          match tries.head? with
+          | none => none
+          | some (s', mp) =>
+            if mp != ip then
+              some s!"MODEL-DIFF iteration {k} now={it.now} model=[{" | ".intercalate mp}] impl=[{" | ".intercalate ip}]"
+            else some s!"MODEL-DIFF iteration {k} now={it.now} wake model={Client.wake s'} impl={it.wake}"
     some (go (Client.init 1000000 intfs) iters 0)
 
 end Mdns.Driver.SimClient
